@@ -17,7 +17,7 @@ fn assemble(meta: &[u128], s0: &[usize], s1: &[usize], bv: BitVector, n_zeros: u
     }
 }
 
-// @h props=C06,C04:t tier=quick family=K mem=8 timeout=1200 role=rswide.sub_block_rank
+// @h props=C06,C04:t tier=quick family=K mem=5 timeout=1200 role=rswide.sub_block_rank
 // @bound directory of 2 arbitrary 128-bit records; every block index 0..16: value = L1 + 12-bit field of the block (0 for the first block)
 // @funcs RSWide::sub_block_rank, RSWide::superblock_rank
 #[kani::proof]
@@ -98,23 +98,23 @@ macro_rules! select_stage {
         }
     };
 }
-// @h props=C06,C04:t,C10 tier=quick family=S mem=8 timeout=1800 role=rswide.select1_subblock
+// @h props=C06,C04:t,C10 tier=quick family=S mem=5 timeout=1800 role=rswide.select1_subblock
 // @bound assembled directory of 11 blocks (two superblocks, the second partial) with arbitrary per-block populations 0..=512; every valid k
 // @funcs RSWide::select1_subblock, RSWide::sub_block_rank, RSWide::superblock_rank
 select_stage!(c06_wide_select1_stage_nb11, 11, true);
-// @h props=C06,C04:t,C10 tier=quick family=S mem=8 timeout=1800 role=rswide.select0_subblock
+// @h props=C06,C04:t,C10 tier=quick family=S mem=5 timeout=1800 role=rswide.select0_subblock
 // @bound assembled directory of 11 blocks with arbitrary per-block populations; every valid k (zeros)
 // @funcs RSWide::select0_subblock, RSWide::sub_block_rank, RSWide::superblock_rank
 select_stage!(c06_wide_select0_stage_nb11, 11, false);
-// @h props=C06 tier=thorough family=S mem=8 timeout=1800 role=rswide.select1_subblock
+// @h props=C06 tier=thorough family=S mem=5 timeout=1800 role=rswide.select1_subblock
 // @bound assembled directory of exactly 16 blocks (two full superblocks)
 // @funcs RSWide::select1_subblock, RSWide::sub_block_rank
 select_stage!(c06_wide_select1_stage_nb16, 16, true);
-// @h props=C06 tier=thorough family=S mem=8 timeout=1800 role=rswide.select0_subblock
+// @h props=C06 tier=thorough family=S mem=5 timeout=1800 role=rswide.select0_subblock
 // @bound assembled directory of exactly 16 blocks (two full superblocks)
 // @funcs RSWide::select0_subblock, RSWide::sub_block_rank
 select_stage!(c06_wide_select0_stage_nb16, 16, false);
-// @h props=C06 tier=quick family=S mem=8 timeout=1800 role=rswide.select1_subblock
+// @h props=C06 tier=quick family=S mem=5 timeout=1800 role=rswide.select1_subblock
 // @bound assembled directory of 3 blocks (one partial superblock)
 // @funcs RSWide::select1_subblock, RSWide::sub_block_rank
 select_stage!(c06_wide_select1_stage_nb3, 3, true);
@@ -313,12 +313,12 @@ wide_concrete!(c06_wide_concrete_z700_n3100, 7, 3100, 700, 70);
 // @bound RSWide::new on 4100 zeros followed by 600 ones (4700 bits = 10 lines, two superblocks), queries symbolic
 // @funcs RSWide::new, RSWide::rank1, RSWide::select1, RSWide::select0
 wide_concrete!(c06_wide_concrete_z4100_n4700, 10, 4700, 4100, 70);
-// @h props=C06 tier=thorough family=T mem=10 timeout=3600 stubs=utils::select_in_word->contract role=rswide.concrete.hint_period
+// @h props=C06 tier=thorough family=T mem=5 timeout=3600 stubs=utils::select_in_word->contract role=rswide.concrete.hint_period
 // @bound RSWide::new on the all-ones vector of 8704 bits (17 lines: more than 8192 ones, two hint periods), queries symbolic
 // @funcs RSWide::new, RSWide::rank1, RSWide::select1, RSWide::select0
 wide_concrete!(c06_wide_concrete_ones8704, 17, 8704, 0, 70);
 
-// @h props=C06,C04,C03:t tier=quick family=E mem=8 timeout=1200 role=rswide.empty
+// @h props=C06,C04,C03:t tier=quick family=E mem=5 timeout=1200 role=rswide.empty
 // @bound empty and Default RSWide: every query with arguments over the machine range gives no position and no non-zero count
 // @funcs RSWide::new, RSWide::default, RSWide::rank1, RSWide::rank0, RSWide::select1, RSWide::select0, RSWide::get, RSWide::n_ones, RSWide::n_zeros
 #[kani::proof]
